@@ -286,6 +286,14 @@ func runC20(c *kit.Ctx) {
 			c20Run(e, sh, rep*len(scens)+si, sn.sc, sn.requester, sn.name)
 		}
 	}
+	// a single requester whose pull's background goroutine is slow to start (seeded delay at rtsp.pull.enter)
+	for li := 0; li < c.Pick(3, 30); li++ {
+		idx++
+		if !c.Mine(idx) {
+			continue
+		}
+		c20RegistrationLag(e, sh, li)
+	}
 	// concurrency: several simultaneous first requests for one path
 	nconc := c.Pick(16, 200)
 	for ci := 0; ci < nconc; ci++ {
@@ -625,4 +633,50 @@ func c20Concurrent(e *c20env, sh string, ci int) {
 		detail["leak"] = what
 		c.Violation("C20:leak:"+strings.SplitN(what, "-instead", 2)[0]+":concurrent", detail)
 	}
+}
+
+// c20RegistrationLag: ONE requester asks for a routed path over RTSP (DESCRIBE, SETUP, SETUP, PLAY - each of which
+// looks the path up again). The goroutine that serves the pulled stream is delayed at its first hook point
+// (rtsp.pull.enter, 300 ms, outside every lock), as it is on a loaded machine. The one request must still cause ONE
+// pull, and the requester must receive the camera's media.
+func c20RegistrationLag(e *c20env, sh string, li int) {
+	c := e.c
+	name := "single-requester/pull-goroutine-starts-late"
+	c.Pre("C20 " + name)
+	cam := kit.NewFakeCam()
+	defer cam.Close()
+	cam.SetScript(kit.CamScript{FaultStep: "PLAYING", Fault: "silence", Packets: 1 << 30})
+	dir := fmt.Sprintf("/%s/lag%d/", sh, li)
+	reqPath := dir + "x"
+	route.Save(&route.Route{Pattern: dir, URL: "rtsp://" + cam.Addr + "/b/"})
+	defer route.Del(dir)
+	lag := kit.H.On("rtsp.pull.enter", nil, func(string, []interface{}) { time.Sleep(300 * time.Millisecond) })
+	defer lag.Remove()
+	atomic.StoreInt64(&e.progress, 0)
+	until := make(chan struct{})
+	ch := e.requesterRTSP(reqPath, until)
+	served := e.await(func() bool { return atomic.LoadInt64(&e.progress) >= 5 || len(ch) > 0 }, 10*time.Second)
+	conns := len(cam.Conns())
+	detail := map[string]interface{}{"scenario": name, "camera_connections": conns, "cam_requests": cam.Conns()}
+	c.Eval(1)
+	c.Distinct(name)
+	if conns > 1 {
+		c.Violation("C20:single-request-caused-more-than-one-pull", detail)
+	}
+	if !served || atomic.LoadInt64(&e.progress) < 5 {
+		out := "pending"
+		if len(ch) > 0 {
+			o := <-ch
+			out = o.kind
+			ch <- o
+		}
+		detail["requester_outcome"] = out
+		c.Violation("C20:success-script:no-media-reached-requester:pull-goroutine-starts-late", detail)
+	} else {
+		c.Count("single_requester_served_with_late_pull_goroutine", 1)
+	}
+	close(until)
+	cam.Close()
+	e.awaitOutcome(ch, 6*e.timeout+4*time.Second)
+	e.clean(cam, reqPath)
 }
